@@ -45,9 +45,9 @@ RULE = ("values: random trees 1..7 nodes (uniform/chain/star/spider/binaryish/ca
         "single: single_node_expectation_value with and without the optional bra")
 PARTIAL = [
     "value level: contract_two_ttns_value proves (all trees, child orders, semirings, dimensions, tensor values) that the "
-    "loop's own tensordot sequence evaluates to the dense inner product; expectation_value_value proves <psi|O|psi> for "
-    "every well-formed program with the loop's record but NOT yet that the loop's result is such a program (the "
-    "soStep/soBlock analogues of ssStep_built/ssBlock_built are missing); that Ptn.Ein.sumPairs / Expr.eval are what "
+    "loop's own tensordot sequence evaluates to the dense inner product, expectation_value_loop_value the same for "
+    "<psi|O|psi> (given equal dimensions on both legs of every pair), as_matrix_value_partial for the dense operator "
+    "(contract_nodes modelled by _data_contraction); that Ptn.Ein.sumPairs / Expr.eval are what "
     "numpy.tensordot computes is checked per run on integer tensors (ein, einrec, _model_value incl. the node-level "
     "helpers any/root/opany/oproot), not proved",
     "orthogonality-centre shortcuts (scalar_product, norm, single-site and one-site tensor product on the centre) are "
